@@ -6,6 +6,19 @@ use llguidance::{Matcher, ParserFactory};
 
 pub fn run() {
     let args: Vec<String> = std::env::args().collect();
+    if args.len() >= 4 && args[2] == "lark" {
+        let (ws, eos) = single_byte_vocab();
+        let env = make_env(&ws, eos, false);
+        match new_matcher(&env, &args[3].replace("\\n", "\n"), &[]) {
+            Err(e) => println!("rejected: {e}"),
+            Ok(mut m) => {
+                let r = m.compute_mask();
+                println!("mask: {:?}", r.map(|v| mask_list(&v)).map_err(|e| e.to_string()));
+                println!("error: {:?}", m.get_error().map(|e| e.lines().take(3).collect::<Vec<_>>().join(" | ")));
+            }
+        }
+        return;
+    }
     // llgverif probe schema '<json>' [literal...]
     if args.len() >= 4 && args[2] == "schema" {
         let (ws, eos) = single_byte_vocab();
